@@ -20,7 +20,8 @@ func init() {
 			"D2 writer and reader use inverse conversion pairs with equal constants (FormatInt(10)/ParseInt(10,64), 0x+FormatUint(16)/ParseUint([2:],16,64), FormatFloat(64)/ParseFloat(64), Quote/Unquote, QuoteRune/Unquote+decode, FormatBool/ParseBool), and the collection type names emitted, scanned and dispatched on are one and the same set; " +
 			"D3 every field of the formatter that FormatValue writes is re-initialised at its entry (or restored by defer) and the depth counter is balanced on normal paths: the text is a function of the argument alone, also after a failed call; " +
 			"D4 every recursion cycle of the formatter carries depth accounting (else a self-containing value overflows the stack instead of being elided); D5 the formatter's loops terminate." +
-			" Also: every word a leaf can print is the match Go's leftmost-first matching selects (not only a word of the token's language); the reader does not fill a bounded collection past the capacity it created it with.",
+			" Also: every word a leaf can print is the match Go's leftmost-first matching selects (not only a word of the token's language); the reader does not fill a bounded collection past the capacity it created it with." +
+			" Round 7: the text restored by strconv.Unquote is not passed through []rune and back.",
 		NotDecided: "value equality of Parse(Format(v)), the text fixpoint, numeric exactness (strconv's contract), leftmost-first match preference inside one token regex, ordering of unordered maps.",
 		Run:        runC10,
 		Assumptions: []string{
